@@ -473,6 +473,11 @@ def rule_admission(ck, facts):
 
 
 def run(ck, facts, tier):
+    from ..rules import scratchlocal as _sl
+
+    _cov = roles.wasm_lowering(facts)
+    if _cov is not None:
+        _sl.run(ck, facts, "C05.scratch", roles.LANG, _cov)
     cg = CallGraph(facts, ["mimium_lang", "state_tree", "mimium_scheduler", "mimium_audiodriver"])
     R = "C03.belief"
     ck.rule(R, belief.__doc__.split("\n\n")[1].replace("\n", " "))
